@@ -25,7 +25,7 @@ inductive Fld where
   | stream_id | flags_ignore | flags_follows | flags_complete | flags_next | flags_respond | flags_lease
   | flags_resume | data | metadata | request_n | initial_request_n | fragment_size_bytes | sent_future
   | last_received_position | keep_alive_milliseconds | max_lifetime_milliseconds | data_encoding
-  | metadata_encoding | major_version | minor_version
+  | metadata_encoding | major_version | minor_version | flags_metadata | metadata_only
 deriving DecidableEq, Repr
 
 /-- Python values that occur: `None`, `bool`, `int`, `bytes`, a `timedelta` (in microseconds), a
